@@ -18,7 +18,8 @@ OPTION_SETS = [[], [], ["score=automatic"], ["score=automatic"], ["bmax=5"], ["i
                ["score=spurious", "bmult=2"], ["score=automatic", "W_spurious=0", "W_verboten=0"], ["trace=ON", "imax=40"], ["trace=ON", "score=automatic", "bmult=1"],
                ["quiet=TRUE"], ["quiet=ALL", "imax=10"], ["quiet=WATCH", "bmax=3"], ["spurious_range=3", "imax=30"], ["spurious_equality=0", "bmax=4"],
                ["score=automatic", "temperature=25", "W_bonds=2.5", "bmult=1"], ["bored=2"], ["OUTPUT"], ["SEQUENCE", "imax=20"],
-               ["SEQUENCE", "trace=ON", "imax=30"], ["SEQUENCE", "imax=1"], ["SEQUENCE", "trace=ON", "score=automatic", "bmult=1"], ["SEQUENCE", "trace=ON", "bmax=6"]]
+               ["SEQUENCE", "trace=ON", "imax=30"], ["SEQUENCE", "imax=1"], ["SEQUENCE", "trace=ON", "score=automatic", "bmult=1"], ["SEQUENCE", "trace=ON", "bmax=6"],
+               ["score=automatic", "bmax=0"], ["bored=0", "score=automatic"], ["bmax=0"], ["quiet=SCORES"], ["quiet=SCORES", "score=automatic", "bmult=1"]]
 
 def hand_triples(rng):
     out = []
